@@ -159,31 +159,60 @@ def check(idx: Index, rep: Report, tier: str) -> str:
         r.fail(f.fq + ":leaves", Finding("C20.R4", f.fq, "source-stays-leaf", "an iteration of the edge-collection loop skips `leaves.discard(src.type)` (e.g. for a self-move): a register that is read stays a leaf, is treated as free and is overwritten", f.loc))
     asserts = [n for n in walk_local(f.node) if isinstance(n, ast.Assert) and unparse(n.test) == "results[output_index[dst_type]] is None"]
     (r.ok(f.fq + ":once", f"{f.loc} a destination receives its result once in the tree phase") if asserts else r.fail(f.fq + ":once", Finding("C20.R4", f.fq, "result-twice", "the single-assignment check of destination results disappeared", f.loc)))
-    mv = [c for c in calls_in(f.node) if call_attr(c) == "_insert_mv_op"]
-    save = [c for c in mv if unparse(c.args[2]) == "temp_reg"]
-    restore = [c for c in mv if unparse(c.args[1]) == "temp_ssa"]
-    if len(save) != 1 or len(restore) != 1:
-        raise AnalysisError(f"{f.fq}: save / restore through the scratch register not found")
-    ws = resolved_text(cfg, save[0].args[3], cfg.node_of(save[0]))
-    wr = resolved_text(cfg, restore[0].args[3], cfg.node_of(restore[0]))
-    if ws == wr:
-        r.ok(f.fq + ":width", f"{f.loc} saved and restored with the same width `{ws}`")
-    else:
-        r.fail(f.fq + ":width", Finding("C20.R4", f.fq, "restore-width", f"the value parked in the scratch register is saved with width `{ws}` but restored with `{wr}`: a 64-bit float restored with fmv.s is truncated", f"{PM}:{restore[0].lineno}"))
-    for c in mv:
-        if c in save or c in restore:
+    # the moves are emitted by match_and_rewrite and by the module-level helpers it calls (one level)
+    scopes = [f.node]
+    mi20 = idx.module(PM)
+    for c in calls_in(f.node):
+        if isinstance(c.func, ast.Name):
+            h = idx.try_func(PM, c.func.id)
+            if h is not None and h.name != "_insert_mv_op" and any(call_attr(k) == "_insert_mv_op" or (isinstance(k.func, ast.Name) and k.func.id == "_insert_mv_op") for k in calls_in(h.raw_node)):
+                scopes.append(h.raw_node)
+    found_pair = False
+    for sc in scopes:
+        scfg = cfg if sc is f.node else CFG(sc)
+        mv = [c for c in calls_in(sc) if (call_attr(c) or (c.func.id if isinstance(c.func, ast.Name) else "")) == "_insert_mv_op" and len(c.args) >= 4]
+        if not mv:
             continue
-        S, W = unparse(c.args[1]), unparse(c.args[3])
-        Wr = resolved_text(cfg, c.args[3], cfg.node_of(c))
-        Sr = resolved_text(cfg, c.args[1], cfg.node_of(c))
-        inst = f"{f.fq}:mv-width@{S}->{unparse(c.args[2])}"
-        table = [n.targets[0].id for n in walk_local(f.node) if isinstance(n, ast.Assign) and isinstance(n.targets[0], ast.Name) and "input_widths" in unparse(n.value) and isinstance(n.value, (ast.Call, ast.DictComp))]
-        if any(W == f"{t}[{S}]" or Wr in (f"{t}[{S}]", f"{t}[{Sr}]") for t in table):
-            r.ok(inst, f"{PM}:{c.lineno} moved with the width registered for its own source")
-        elif Wr == ws or W == unparse(save[0].args[3]):
-            r.fail(inst, Finding("C20.R4", f.fq, f"move-width:{W}", f"`{unparse(c)}` moves `{S}` with `{W}`, the width of the move that was split to break the cycle, not the width registered for `{S}` itself: in a float cycle with mixed widths a 64-bit value is moved with fmv.s and loses its upper half", f"{PM}:{c.lineno}"))
-        else:
-            raise AnalysisError(f"{f.fq}: width argument `{W}` of `{unparse(c)[:60]}` not understood")
+        # save = a move whose result is bound to a name X; restore = the move whose source is X
+        bound = {}
+        for st_ in walk_local(sc):
+            if isinstance(st_, ast.Assign) and len(st_.targets) == 1 and isinstance(st_.targets[0], ast.Name) and st_.value in mv:
+                bound[st_.targets[0].id] = st_.value
+        pairs = [(sv, c) for nm_, sv in bound.items() for c in mv if unparse(c.args[1]) == nm_]
+        save = [sv for sv, _ in pairs]
+        restore = [c for _, c in pairs]
+        ws = None
+        for sv, rs in pairs:
+            found_pair = True
+            ws = resolved_text(scfg, sv.args[3], scfg.node_of(sv))
+            wr = resolved_text(scfg, rs.args[3], scfg.node_of(rs))
+            if ws == wr:
+                r.ok(f.fq + ":width", f"{f.loc} saved and restored with the same width `{ws}`")
+            else:
+                r.fail(f.fq + ":width", Finding("C20.R4", f.fq, "restore-width", f"the value parked in the scratch register is saved with width `{ws}` but restored with `{wr}`: a 64-bit float restored with fmv.s is truncated", f"{PM}:{rs.lineno}"))
+        # tables that hold the width registered for each source value
+        table = {n.targets[0].id for n in walk_local(sc) if isinstance(n, ast.Assign) and isinstance(n.targets[0], ast.Name) and "input_widths" in unparse(n.value)}
+        for w_ in walk_local(sc):
+            if isinstance(w_, ast.For) and "input_widths" in unparse(w_.iter):
+                table |= {unparse(s_.targets[0].value) for s_ in walk_local(w_) if isinstance(s_, ast.Assign) and isinstance(s_.targets[0], ast.Subscript)}
+        if sc is not f.node:
+            # a helper receives the table as a parameter: the argument passed at the call site names it
+            table |= {a_.arg for a_ in sc.args.args}
+        for c in mv:
+            if c in save or c in restore:
+                continue
+            S, W = unparse(c.args[1]), unparse(c.args[3])
+            Wr = resolved_text(scfg, c.args[3], scfg.node_of(c))
+            Sr = resolved_text(scfg, c.args[1], scfg.node_of(c))
+            inst = f"{f.fq}:mv-width@{S}->{unparse(c.args[2])}"
+            if any(W == f"{t}[{S}]" or Wr in (f"{t}[{S}]", f"{t}[{Sr}]") for t in table):
+                r.ok(inst, f"{PM}:{c.lineno} moved with the width registered for its own source")
+            elif save and (Wr == ws or W == unparse(save[0].args[3])):
+                r.fail(inst, Finding("C20.R4", f.fq, f"move-width:{W}", f"`{unparse(c)}` moves `{S}` with `{W}`, the width of the move that was split to break the cycle, not the width registered for `{S}` itself: in a float cycle with mixed widths a 64-bit value is moved with fmv.s and loses its upper half", f"{PM}:{c.lineno}"))
+            else:
+                raise AnalysisError(f"{f.fq}: width argument `{W}` of `{unparse(c)[:60]}` not understood")
+    if not found_pair:
+        raise AnalysisError(f"{f.fq}: save / restore through the scratch register not found")
     if unparse(f.node).rstrip().endswith("rewriter.replace(op, (), results)"):
         r.ok(f.fq + ":replace", None)
 
